@@ -1,11 +1,16 @@
 #!/bin/bash
-# try_mutant.sh <patch.diff> <PID> [extra ./check args...] : apply a seeded change to /repo, run the check, undo it straight afterwards
+# try_mutant.sh <patch.diff> <PID> [extra ./check args...]
+# Applies a seeded change in a scratch worktree of /repo (never in /repo itself), runs the property's check against that worktree
+# (VERIF_REPO), and removes the change again.  Exit code = exit code of the check (1 = VIOLATION reported).
 PATCH=$1; PID=$2; shift 2
-cd /repo || exit 9
-if [ -n "$(git status --porcelain --untracked-files=no)" ]; then echo "repo dirty"; exit 9; fi
+WT=${TRY_WT:-/tmp/wt/try}
+if [ ! -d $WT ]; then git -C /repo worktree add -q --detach $WT HEAD || exit 9; fi
+cd $WT || exit 9
+git checkout -q --detach $(git -C /repo rev-parse HEAD) 2>/dev/null
+git checkout -- . ; git clean -fdq -e target -e Cargo.lock; cp /repo/Cargo.lock .
 git apply "$PATCH" || { echo "APPLY-FAILED"; exit 8; }
-trap 'git -C /repo checkout -- .' EXIT
-cd /verif && ./check $PID --no-evidence "$@"
+cd /verif && VERIF_REPO=$WT ./check $PID --no-evidence "$@"
 rc=$?
+git -C $WT checkout -- .
 echo "MUTANT-RESULT patch=$PATCH property=$PID check_exit=$rc"
 exit $rc
